@@ -359,6 +359,17 @@ def run_job(spec):
     shims.install()
     res = JobResult(str(spec)[:70])
     {'validate': run_validate, 'parsed': run_parsed, 'static': run_static, 'tworeaders': run_two}[spec[0]](spec, res)
+    if spec[0] in ('parsed', 'validate') and 'M11' in spec[1]:
+        # concrete witnesses: MSM frames with awkward masks (reserved signal / unmapped satellite IDs) between ordinary frames
+        from . import structs, concrete
+        for j, pl in enumerate(structs.random_msm_cases("1074" if spec[0] == 'parsed' else "1117", 5, 9)):
+            fr = b"\xd3" + len(pl).to_bytes(2, "big") + pl
+            fr += concrete.crc24q_ref(fr).to_bytes(3, "big")
+            tail = bytes.fromhex("d30002fe80bbfe86")
+            data = fr + tail
+            c = {'kind': 'options', 'data': data.hex(), 'frames': [[0, len(fr)], [len(fr), len(data)]], 'mode': spec[2], 'labelmsm': 2 if j % 4 == 3 else 1}
+            c.update({'option': 'parsed', 'parsed': False} if spec[0] == 'parsed' else {'option': 'validate', 'validate': 0})
+            res['witnesses'].append(c)
     res['samples'].append({'job': [str(x) for x in spec], 'paths': res['paths']})
     return res
 
